@@ -119,7 +119,7 @@ fn second_boundary_warm_up() {
     while subsec_ms() < 850 {
         std::thread::sleep(std::time::Duration::from_millis(5));
     }
-    let cfg = EntityCfg { len: 10, etag: None, mtime_ns: Some(784111777u64 * 1_000_000_000), hdrs: vec![], recipes: vec![], default_recipe: vec![Op::Rest] };
+    let cfg = EntityCfg { len: 10, etag: None, mtime_ns: Some(784111777u64 * 1_000_000_000), hdrs: vec![], recipes: vec![], default_recipe: vec![Op::Rest], split: false };
     let ent = ScriptedEntity { cfg, log: Arc::new(Mutex::new(Log::default())) };
     let req = http::Request::builder().method("GET").body(()).unwrap();
     let _ = catch_unwind(AssertUnwindSafe(|| http_serve::serve(ent, &req)));
@@ -135,7 +135,10 @@ pub fn run(case: &ServeCase) -> Outcome {
         second_boundary_warm_up();
     }
     let log = Arc::new(Mutex::new(Log::default()));
-    let ent = ScriptedEntity { cfg: case.ent.clone(), log: log.clone() };
+    // hint 8: the entity hands its chunks over as two non-contiguous pieces
+    let mut cfg = case.ent.clone();
+    cfg.split = cfg.split || has_hint(case, 8);
+    let ent = ScriptedEntity { cfg, log: log.clone() };
     let mut rb = http::Request::builder().method(http::Method::from_bytes(&case.method).expect("valid method token"));
     for (k, v) in &case.headers {
         rb = rb.header(k.as_str(), http::HeaderValue::from_bytes(v).expect("valid header value"));
@@ -211,8 +214,9 @@ pub fn run(case: &ServeCase) -> Outcome {
                     Ok(Poll::Ready(None)) => (Val::N(1), true),
                     Ok(Poll::Ready(Some(Ok(f)))) => match f.into_data() {
                         Ok(d) => {
+                            let d = d.into_vec();
                             body_bytes += d.len() as u64;
-                            (Val::B(d.to_vec()), false)
+                            (Val::B(d), false)
                         }
                         Err(_) => (Val::L(vec![Val::N(8)]), false),
                     },
@@ -332,6 +336,7 @@ pub fn case_of_input(v: &Val) -> Option<ServeCase> {
             hdrs,
             recipes,
             default_recipe: vec![],
+            split: false,
         },
         method: r[0].as_b()?.clone(),
         headers,
